@@ -121,7 +121,7 @@ fn seq_spec(ctx: &Ctx, pool: usize, buffer: usize) -> SeqSpec {
         world: Default::default(),
         prefix: vec![put(1, 2), put(2, 2)],
         alphabet: vec![get(1), get(2), get(3), Op::MultiRead { keys: vec![1, 2, 3], variant: ReadVariant::MultiGet }, Op::MultiRead { keys: vec![1, 1, 2], variant: ReadVariant::MultiGet }, Op::MultiRead { keys: vec![2, 2], variant: ReadVariant::MultiGetMapIterator }, Op::Read { k: 1, variant: ReadVariant::GetRef }, del(2), put(2, 2)],
-        depth: if ctx.quick() { 6 } else { 9 },
+        depth: if ctx.quick() { 7 } else { 9 },
         allow: None,
         oracle: seq_oracle(),
         keys: vec![1, 2, 3],
